@@ -302,4 +302,128 @@ theorem Before.trans_lo {a b : Bytes} (h : Before a b) : lo a < lo b := klt_of_l
 theorem compare_self {a : Bytes} (ha : Valid a) : compare a a = 0 :=
   (compare_zero_iff ha ha).mpr ⟨lo_lt_hi a, lo_lt_hi a⟩
 
+
+/-! ### all values the duplicate logic copes with: well-formed ones and the single dot -/
+
+/-- a configured value that does not begin with two dots (and is not empty) -/
+def Wf (v : Bytes) : Prop := v ≠ [] ∧ multiDot v = false
+
+theorem Valid.wf {v : Bytes} (h : Valid v) : Wf v := by
+  refine ⟨h.ne_nil, ?_⟩
+  match v with
+  | [] => rfl
+  | [_] => rfl
+  | a :: b :: r =>
+    by_cases ha : a = DOT
+    · by_cases hb : b = DOT
+      · subst ha; subst hb
+        have := h.2
+        simp [root, startsWithDot] at this
+      · simp [multiDot, hb]
+    · simp [multiDot, ha]
+
+theorem wf_cases {v : Bytes} (h : Wf v) : Valid v ∨ v = [DOT] := by
+  obtain ⟨hne, hmd⟩ := h
+  match v with
+  | [] => exact absurd rfl hne
+  | [a] =>
+    by_cases ha : a = DOT
+    · right; rw [ha]
+    · left; simp [Valid, root, startsWithDot, ha]
+  | a :: b :: r =>
+    left
+    by_cases ha : a = DOT
+    · have hb : b ≠ DOT := by
+        intro hb; simp [multiDot, ha, hb] at hmd
+      subst ha
+      simp [Valid, root, startsWithDot, hb]
+    · simp [Valid, root, startsWithDot, ha]
+
+theorem not_valid_dot : ¬ Valid [DOT] := by decide
+
+theorem lo_dot : lo [DOT] = [0] := by decide
+theorem hi_dot : hi [DOT] = [2] := by decide
+theorem hostKey_dot : hostKey [DOT] = [] := by decide
+
+theorem mdn_dot_host (x : Bytes) : mdn mdnNone [DOT] x = -1 := by
+  simp [mdn, stripDots]
+
+/-- nothing but the empty key lies below `[0]` -/
+theorem not_lo_lt_zero (v : Bytes) : ¬ lo v < [0] := by
+  rw [lo_eq]
+  cases rkey (root v) with
+  | nil => simp
+  | cons a l => simp [List.cons_lt_cons_iff]
+
+theorem zero_lt_hi (v : Bytes) : ([0] : List Nat) < hi v :=
+  klt_of_nlt_of_lt (not_lo_lt_zero v) (lo_lt_hi v)
+
+theorem compare_neg_iff' {a b : Bytes} (ha : Wf a) (hb : Wf b) :
+    compare a b < 0 ↔ (¬ lo b < hi a ∨ (a = [DOT] ∧ b = [DOT])) := by
+  rcases wf_cases ha with va | rfl <;> rcases wf_cases hb with vb | rfl
+  · rw [compare_neg_iff va vb]
+    constructor
+    · exact Or.inl
+    · rintro (h | ⟨h, _⟩)
+      · exact h
+      · subst h; exact absurd va not_valid_dot
+  · -- b is the dot: Compare(a, .) = matchDomainName(a, .) ≥ 0
+    have h1 : compare a [DOT] = mdn mdnNone a [DOT] := by simp [compare, mdn_dot_host]
+    rw [h1, mdn_neg_iff a [DOT] (by simp), hostKey_valid va, lo_dot]
+    constructor
+    · intro h; exact absurd h (not_lo_lt_zero a)
+    · rintro (h | ⟨h, _⟩)
+      · exact absurd (zero_lt_hi a) h
+      · subst h; exact absurd va not_valid_dot
+  · -- a is the dot: Compare(., b) is -1 unless b lies inside the dot's set
+    have h0 := mdn_zero_iff b [DOT] (by simp)
+    rw [hostKey_valid vb] at h0
+    simp only [compare, mdn_dot_host]
+    constructor
+    · intro h
+      by_cases hz : mdn mdnNone b [DOT] ≠ 0
+      · left; intro hc
+        exact hz (h0.mpr ⟨by rw [lo_dot]; exact not_lo_lt_zero b, hc⟩)
+      · rw [if_neg hz] at h; omega
+    · rintro (h | ⟨_, h⟩)
+      · have hz : mdn mdnNone b [DOT] ≠ 0 := fun hz => h (h0.mp hz).2
+        rw [if_pos hz]; decide
+      · subst h; exact absurd vb not_valid_dot
+  · simp [compare, mdn_dot_host]
+
+theorem compare_pos_iff' {a b : Bytes} (ha : Wf a) (hb : Wf b) : compare a b > 0 ↔ ¬ lo a < hi b := by
+  rcases wf_cases ha with va | rfl <;> rcases wf_cases hb with vb | rfl
+  · exact compare_pos_iff va vb
+  · have h1 : compare a [DOT] = mdn mdnNone a [DOT] := by simp [compare, mdn_dot_host]
+    rw [h1, mdn_pos_iff a [DOT] (by simp), hostKey_valid va]
+  · simp only [compare, mdn_dot_host]
+    constructor
+    · intro h; split at h <;> omega
+    · intro h; rw [lo_dot] at h; exact absurd (zero_lt_hi b) h
+  · simp only [compare, mdn_dot_host]
+    constructor
+    · intro h; simp at h
+    · intro h; rw [lo_dot, hi_dot] at h; exact absurd (by decide) h
+
+theorem compare_zero_iff' {a b : Bytes} (ha : Wf a) (hb : Wf b) :
+    compare a b = 0 ↔ ((lo b < hi a ∧ lo a < hi b) ∧ ¬ (a = [DOT] ∧ b = [DOT])) := by
+  have h1 := compare_neg_iff' ha hb
+  have h2 := compare_pos_iff' ha hb
+  constructor
+  · intro h
+    refine ⟨⟨?_, ?_⟩, ?_⟩
+    · apply Classical.byContradiction; intro hc
+      have := h1.mpr (Or.inl hc); omega
+    · apply Classical.byContradiction; intro hc
+      have := h2.mpr hc; omega
+    · intro hc
+      have := h1.mpr (Or.inr hc); omega
+  · intro ⟨⟨h3, h4⟩, h5⟩
+    rcases Int.lt_trichotomy (compare a b) 0 with h | h | h
+    · rcases h1.mp h with h | h
+      · exact absurd h3 h
+      · exact absurd h h5
+    · exact h
+    · exact absurd h4 (h2.mp h)
+
 end SquidModel.Acl.Domain
